@@ -129,7 +129,7 @@ OBJ = {"none": None, "int": 5, "empty": "", "float": 1.5, "strnum": "7", "str": 
        "date_dashed": "2015-05-22", "nodate": "Fedora-22", "label_ga": "GA", "label_noversion": "RC", "label_onepart": "RC-1",
        "label_unknown": "Gamma-1.0", "label_threepart": "RC-1.0.0", "label_lower": "rc-1.0", "trailingdot": "1.", "doubledot": "1..2",
        "alnum": "1a", "dash": "a-b", "space": "a b", "md5_short": "abc123", "md5_upper": "A" * 32, "md5_31": "a" * 31,
-       "layered": "layered-product", "variantid": "Server"}
+       "layered": "layered-product", "variantid": "Server", "nan": float("nan"), "bytes": b"x86_64"}
 DOC = dict(OBJ)
 DOC.update({"emptyset": [], "int_date": 20150522})
 INI = {"trailingdot": "1.", "alnum": "1a", "str": "maybe", "empty": "", "zero": "0", "dash": "a-b", "unknown": "bogus-value",
@@ -569,7 +569,9 @@ def write_cases(quick=True):
              ("treeinfo_1", "ti.tree", "arch", "empty"), ("treeinfo_1", "ti.variant", "type", "unknown"),
              ("treeinfo_1", "ti.images", "image_paths", "absolute"), ("treeinfo_1", "ti.media", "discnum", "str"),
              ("treeinfo_1", "ti.stage2", "mainimage", "absolute"), ("treeinfo_2", "ti.base_product", "version", "alnum"),
-             ("discinfo_0", "di.discinfo", "arch", "empty")]
+             ("discinfo_0", "di.discinfo", "arch", "empty"), ("discinfo_0", "di.discinfo", "description", "bytes"),
+             ("discinfo_1", "di.discinfo", "arch", "bytes"), ("treeinfo_1", "ti.tree", "build_timestamp", "nan"),
+             ("treeinfo_0", "ti.tree", "build_timestamp", "nan")]
     for sample, kind, field, cls in picks:
         for i, n in enumerate(table[sample]):
             if kind in n["kinds"]:
@@ -590,16 +592,21 @@ def eval_dump_path(case, disk0, tmp):
         with open(path, "w") as fh:
             fh.write(old)
     what = "%s %s[%s].%s := <%s>" % (case["sample"], case["kind"], case["label"], case["field"], case["cls"])
-    try:
-        obj.dump(path)
-        return ["%s: dump(path) wrote an invalid object" % what]
-    except (TypeError, ValueError):
-        pass
-    except Exception as exc:
-        return ["%s: dump(path) raised %s" % (what, type(exc).__name__)]
-    now = open(path).read() if os.path.exists(path) else None
-    if disk0 == "Old" and now != old:
-        return ["%s: rejected dump %s the previous file" % (what, "deleted" if now is None else "replaced (now %d bytes)" % len(now))]
-    if disk0 == "Absent" and now is not None:
-        return ["%s: rejected dump left a new %d-byte file behind" % (what, len(now))]
-    return []
+    import pathlib
+    fails = []
+    for form, dest in (("a path string", path), ("a pathlib.Path", pathlib.Path(path))):
+        try:
+            obj.dump(dest)
+            return ["%s: dump(%s) wrote an invalid object" % (what, form)]
+        except (TypeError, ValueError):
+            pass
+        except Exception as exc:
+            if form == "a path string":
+                return ["%s: dump(path) raised %s" % (what, type(exc).__name__)]
+            # whether path-like destinations are supported at all is not the claim; what is on disk afterwards is
+        now = open(path).read() if os.path.exists(path) else None
+        if disk0 == "Old" and now != old:
+            return ["%s: rejected dump to %s %s the previous file" % (what, form, "deleted" if now is None else "replaced (now %d bytes)" % len(now))]
+        if disk0 == "Absent" and now is not None:
+            return ["%s: rejected dump to %s left a new %d-byte file behind" % (what, form, len(now))]
+    return fails
